@@ -72,6 +72,9 @@ type EPConf struct {
 	InitRTOms    int    `json:"init_rto_ms,omitempty"`
 	MaxRTOms     int    `json:"max_rto_ms,omitempty"`
 	CookieSecret string `json:"cookie_secret,omitempty"`
+	// CookieSecretEmpty: Config.CookieSecret is an empty, non-nil slice (what an unset environment variable
+	// gives): no secret is configured
+	CookieSecretEmpty bool `json:"cookie_secret_empty,omitempty"`
 	// TimeYear: Config.Time reports 1 January of this year instead of ConfigEpoch. RootPool: use this pool
 	// object (so that two configurations share one) instead of building one from Roots.
 	TimeYear int            `json:"time_year,omitempty"`
@@ -192,6 +195,8 @@ func (e *EPConf) BuildDTLCP(env *Env, name string) *dtlcp.Config {
 	}
 	if e.CookieSecret != "" {
 		c.CookieSecret = []byte(e.CookieSecret)
+	} else if e.CookieSecretEmpty {
+		c.CookieSecret = []byte{}
 	}
 	for i, n := range e.Certs {
 		chain := [][]byte{fix.DER(n)}
